@@ -46,6 +46,20 @@ def values_for(ty, rng, c):
         return prim_grid()
     if n in ("JSVal", "PyVal"):
         return prim_grid() + (obj_grid() if not c.prim_args or n == "JSVal" else [])
+    if n == "ValList":
+        from microjs.values import UNDEFINED
+        return [[], [1], [UNDEFINED, "x"], [0.5, True, "a"]]
+    if n == "Obj":
+        cls = ty.kw["cls"]
+        if cls == "VM":
+            from microjs.vm import VM
+            return [VM]            # factories: called per case
+        if cls == "CallFrame":
+            from microjs.vm import CallFrame
+            from microjs.compiler import CompiledFunction
+            from microjs.values import UNDEFINED
+            return [lambda: CallFrame(func=CompiledFunction("f", [], b"", [], [], 0), ip=0, bp=0, locals=[], this_value=UNDEFINED)]
+        raise KeyError(cls)
     if n == "JSArgs":
         prims = prim_grid() + ([] if c.prim_args else obj_grid())
         out = [()]
@@ -67,10 +81,12 @@ def run_grid(runner, c: api.Contract, seed=0, budget=4000, findings=(), time_bud
     sig = inspect.signature(c.fn)
     names = list(sig.parameters)
     doms = []
+    types_ = {}
     for n in names:
         ty = sig.parameters[n].annotation
         if isinstance(ty, str):
             ty = eval(ty, vars(sys.modules[c.module]))
+        types_[n] = ty.name
         try:
             doms.append(list(values_for(ty, rng, c)))
         except KeyError:
@@ -93,7 +109,8 @@ def run_grid(runner, c: api.Contract, seed=0, budget=4000, findings=(), time_bud
     for combo in combos:
         if time.time() - t0 > time_budget_s:
             break
-        inputs = dict(zip(names, combo))
+        inputs = {k: (v() if callable(v) and getattr(v, "__name__", "") in ("VM", "<lambda>") and types_[k] == "Obj" else
+                      (list(v) if isinstance(v, list) else v)) for k, v in zip(names, combo)}
         try:
             run = runner.run_native(c, inputs)
         except Exception as e:  # noqa
